@@ -1289,14 +1289,24 @@ def _run_cli_worker(world: World) -> None:
     wr.uvloop = None  # type: ignore[assignment]
     asyncio.new_event_loop = lambda: loop  # type: ignore[assignment]
     try:
-        args = WorkerArgs(
-            broker="sim:broker", modules=[], receiver="sim:receiver", configure_logging=False,
-            no_parse=not cfg.get("validate_params", True), max_async_tasks=cfg.get("A") or 0, max_prefetch=cfg.get("P", 0),
-            no_propagate_errors=not cfg.get("propagate", True),
-            ack_type=AcknowledgeType(cfg["ack_type"]) if cfg.get("ack_type") else AcknowledgeType.WHEN_SAVED,
-            max_tasks_per_child=cfg.get("N"), wait_tasks_timeout=cfg.get("W"), shutdown_timeout=5, workers=1,
-            hardkill_count=cfg.get("hardkill_count", 3), max_threadpool_threads=cfg.get("pool_size"),
-        )
+        # the command line of `taskiq worker`, parsed by the real argument parser
+        argv = ["sim:broker", "--receiver", "sim:receiver", "--no-configure-logging", "--workers", "1", "--shutdown-timeout", "5",
+                "--max-async-tasks", str(cfg.get("A") or 0), "--max-prefetch", str(cfg.get("P", 0)),
+                "--hardkill-count", str(cfg.get("hardkill_count", 3))]
+        if not cfg.get("validate_params", True):
+            argv.append("--no-parse")
+        if not cfg.get("propagate", True):
+            argv.append("--no-propagate-errors")
+        if cfg.get("ack_type"):
+            argv += ["--ack-type", cfg["ack_type"] if world.seed % 2 else cfg["ack_type"].upper()]
+        if cfg.get("N") is not None:
+            argv += ["--max-tasks-per-child", str(cfg["N"])]
+        if cfg.get("W") is not None:
+            argv += ["--wait-tasks-timeout", repr(float(cfg["W"]))]
+        if cfg.get("pool_size") is not None:
+            argv += ["--max-threadpool-threads", str(cfg["pool_size"])]
+        args = WorkerArgs.from_cli(argv)
+        world.rec("cli_args", None, argv=argv)
         ctx.run(wr.start_listen, args)
     finally:
         for n, v in saved.items():
